@@ -4,12 +4,12 @@
 From stdpp Require Import gmap list numbers sorting.
 From Coq Require Import ZArith NArith.
 From Verif Require Import Tx.Store Tx.Ledger Tx.Hist Tx.Inv Tx.Refine
-  Tx.InvObs Tx.InvLease Tx.InvRemove Tx.InvSeen Tx.InvConfirm Tx.InvRollback.
+  Tx.InvObs Tx.InvLease Tx.InvRemove Tx.InvSeen Tx.InvConfirm Tx.InvRollback Tx.InvRedeliver.
 Local Open Scope Z_scope.
 
 Lemma all_steps_preserve U : wf_universe U = true → ∀ e, step_preserves U e.
 Proof.
-  intros _ [t|t h b bt|h|t|id op dur|id op|dt|].
+  intros _ [t|t h b bt|h|t|id op dur|id op|dt| |t ob].
   - apply step_preserves_seen.
   - apply step_preserves_confirm.
   - apply step_preserves_disconnect.
@@ -18,6 +18,7 @@ Proof.
   - apply step_preserves_release.
   - apply step_preserves_tick.
   - apply step_preserves_sweep.
+  - apply step_preserves_redeliver.
 Qed.
 
 Theorem refinement : refinement_statement.
